@@ -192,9 +192,9 @@ func guardOut(f func() c05Out) (o c05Out) {
 	return f()
 }
 
-func seqO(s []int) c05Out   { return c05Out{"seq", nz(s)} }
-func boolO(b bool) c05Out   { return c05Out{"bool", b} }
-func keysO(s []int) c05Out  { return c05Out{"keys", nz(s)} }
+func seqO(s []int) c05Out     { return c05Out{"seq", nz(s)} }
+func boolO(b bool) c05Out     { return c05Out{"bool", b} }
+func keysO(s []int) c05Out    { return c05Out{"keys", nz(s)} }
 func pairsO(p [][]int) c05Out { return c05Out{"pairs", p} }
 
 // ---- slices
